@@ -219,8 +219,6 @@ func (p *provider) Close() error {
 		if err := p.rootScope.Close(); err != nil {
 			errors = append(errors, fmt.Errorf("root scope: %w", err))
 		}
-
-		p.rootScope = nil
 	}
 
 	// Dispose all singleton disposables
